@@ -31,6 +31,15 @@ META = {
 }
 
 
+def FS_NAME(name):
+    """A file name with non-ASCII letters - where the file system encoding of this process can spell it."""
+    try:
+        name.encode(sys.getfilesystemencoding())
+        return name
+    except UnicodeError:
+        return name.encode('ascii', 'replace').decode('ascii').replace('?', '_')
+
+
 def run_cli(argv):
     """In-process CLI run.  Returns (rc, stdout, stderr)."""
     import mosromgr.cli as cli
@@ -126,7 +135,7 @@ def make_files(s, rng, tmpdir, n, for_merge=False):
     ids = gen.Ids('c')
     for k in range(n):
         r = rng.random()
-        name = os.path.join(tmpdir, rng.choice(['f%02d-%d.mos.xml', 'f %02d %d.mos.xml', 'fé%02d-%d ü.mos.xml', 'f[%02d]-%d.mos.xml', 'f%02d-%d*?.mos.xml']) %
+        name = os.path.join(tmpdir, rng.choice(['f%02d-%d.mos.xml', 'f %02d %d.mos.xml', FS_NAME('fé%02d-%d ü.mos.xml'), 'f[%02d]-%d.mos.xml', 'f%02d-%d*?.mos.xml']) %
                             (k, rng.randint(0, 999)))
         name = odd_spelling(rng, name)
         if r < 0.6:
@@ -185,7 +194,23 @@ def check_detect_inspect(s, rng, tmpdir, idx, inspect):
         # files AND a bucket named: the listed files are what is reported (the bucket is never consulted)
         extra = rng.choice([['-b', 'unused-bucket'], ['-b', 'unused-bucket', '-p', 'some/prefix/'],
                             ['--bucket-name', 'unused-bucket']]) if rng.random() < 0.12 else []
-        judge_detect_inspect(s, 'inspect' if inspect else 'detect', files, extra)
+        cwd = os.getcwd()
+        if rng.random() < 0.15 and not any(k in ('pipe', 'dir') for _, k in files):
+            # relative names given from inside the directory, some of them starting with characters that mean
+            # something to a shell or an argument parser (@ + = ~ %): they are file names
+            os.chdir(tmpdir)
+            rel = []
+            for j_, (f_, k_) in enumerate(files):
+                nm = rng.choice(['@', '@', '+', '=', '~', '%']) + 'n%d-' % j_ + os.path.basename(f_).replace('*', 'x').replace('?', 'q')
+                if os.path.isfile(f_):
+                    os.rename(f_, os.path.join(tmpdir, nm))
+                rel.append((nm, k_))
+            files = rel
+            s.hist['cli:relative-odd-first-character-names'] += 1
+        try:
+            judge_detect_inspect(s, 'inspect' if inspect else 'detect', files, extra)
+        finally:
+            os.chdir(cwd)
     finally:
         close_pipes(files)
 
@@ -313,7 +338,7 @@ def merge_files(s, rng, tmpdir):
     order = list(range(len(docs)))
     rng.shuffle(order)
     for j in order:
-        p = os.path.join(tmpdir, rng.choice(['m%02d.mos.xml', 'm %02d.mos.xml', 'mö%02d.mos.xml', 'm[%02d].mos.xml', 'm%02d*.mos.xml']) % j)
+        p = os.path.join(tmpdir, rng.choice(['m%02d.mos.xml', 'm %02d.mos.xml', FS_NAME('mö%02d.mos.xml'), 'm[%02d].mos.xml', 'm%02d*.mos.xml']) % j)
         write_doc(rng, p, docs[j])
         paths.append(p)
     if rng.random() < 0.06 and len(paths) > 1:
@@ -349,6 +374,25 @@ def merge_files(s, rng, tmpdir):
     return paths, flavour
 
 
+_OTHER_FS = []
+
+
+def other_filesystem_dir():
+    """A writable directory on a file system other than the temp directory's (None when there is none)."""
+    if not _OTHER_FS:
+        found = None
+        try:
+            here = os.stat(tempfile.gettempdir()).st_dev
+            for d in ('/dev/shm', '/run/user/%d' % os.getuid(), '/var/tmp'):
+                if os.path.isdir(d) and os.access(d, os.W_OK) and os.stat(d).st_dev != here:
+                    found = tempfile.mkdtemp(prefix='verif-c19-', dir=d)
+                    break
+        except OSError:
+            found = None
+        _OTHER_FS.append(found)
+    return _OTHER_FS[0]
+
+
 def check_merge(s, rng, tmpdir, idx):
     paths, flavour = merge_files(s, rng, tmpdir)
     inc, non_strict, outfile = rng.random() < 0.5, rng.random() < 0.5, rng.random() < 0.5
@@ -365,6 +409,12 @@ def check_merge(s, rng, tmpdir, idx):
     if non_strict:
         argv.append(rng.choice(['-n', '--non-strict']))
     outpath = os.path.join(tmpdir, 'out-%d%s' % (idx, rng.choice(['.xml', '.xml', '', '.mos.xml', '.merged', '.2021-01-01'])))
+    other = other_filesystem_dir()
+    if other and rng.random() < 0.2:
+        # the output goes to a directory on another file system than the inputs and the temp directory
+        outpath = os.path.join(other, 'c19-%d-%d-%s' % (os.getpid(), idx, os.path.basename(outpath)))
+        flavour += '+output-on-another-file-system'
+        s.hist['cli:merge:output-on-another-file-system'] += 1
     preexisting = None
     if outfile:
         r = rng.random()
@@ -655,6 +705,15 @@ def judge_subprocess(s, argv, paths, flavour, inc, ns, cwd):
 def run(s):
     q = s.tier == 'quick'
     base = tempfile.mkdtemp(prefix='verif-c19-')
+    try:
+        _run(s, q, base)
+    finally:
+        if _OTHER_FS and _OTHER_FS[0]:
+            shutil.rmtree(_OTHER_FS[0], ignore_errors=True)
+            _OTHER_FS[:] = []
+
+
+def _run(s, q, base):
     try:
         n = 800 if q else 30000
         for i in range(n):
